@@ -515,6 +515,16 @@ def run(p, report, tier):
             it = Interp(p)
             it.run_entity(ci, f)
             c05.check_entity(p, report, ci, f, it, r_param="R10.10", r_arr=None, r_est=None)
+    # ---------------- R10.13 = R3: nothing a query leaves behind steers update
+    report.rule("R10.13", "update commits what the query for THESE candidates simulated, whatever was queried in between: a "
+                "stream query (and query_by_utility) leaves no state behind - in particular no memo of its simulation "
+                "(a generator state, the utilities it saw) that a later update would adopt (shared with C03 R3)", floor=15)
+    from . import c03 as _c03
+    _sub3 = type(report)("C03")
+    _c03.run(p, _sub3, "quick")
+    for o in _sub3.obligations:
+        if o.rule == "R3":
+            report.add("R10.13", o.entity, o.construct, o.loc, o.ok, detail=o.detail, nontrivial=False)
     # ---------------- R10.12 premises shared with C04
     report.rule("R10.12", "what update commits is what the budget manager built for the configured budget accounts: the "
                 "manager is built once and with self.budget on the query path and on the update path alike, query and "
